@@ -30,3 +30,35 @@ Proof.
   - apply Z.leb_gt in M. destruct (a <? 2 ^ (w - 1)) eqn:L; [|apply Z.ltb_ge in L; lia].
     rewrite Z.div_small by lia. unfold wrap. symmetry. apply Z.mod_0_l. lia.
 Qed.
+
+(* ---- shift identities used by the rewrite rules ---- *)
+Lemma wrap_sval w v : 0 < w -> 0 <= v < 2 ^ w -> wrap w (sval w v) = v.
+Proof.
+  intros Hw Hv. unfold sval, wrap. destruct (v <? 2 ^ (w - 1)); [apply Z.mod_small; lia|].
+  symmetry. apply Zmod_unique with (q := -1); lia.
+Qed.
+
+Lemma shl_x_0 w v : 0 < w -> 0 <= v < 2 ^ w -> bvshl_x w v 0 = v.
+Proof.
+  intros Hw Hv. unfold bvshl_x. destruct (w <=? 0) eqn:E; [apply Z.leb_le in E; lia|].
+  unfold bvshl. change (2 ^ 0) with 1. rewrite Z.mul_1_r. apply wrap_small; auto.
+Qed.
+Lemma lshr_x_0 w v : 0 < w -> bvlshr_x w v 0 = v.
+Proof.
+  intros Hw. unfold bvlshr_x. destruct (w <=? 0) eqn:E; [apply Z.leb_le in E; lia|].
+  unfold bvlshr. change (2 ^ 0) with 1. apply Z.div_1_r.
+Qed.
+Lemma ashr_x_0 w v : 0 < w -> 0 <= v < 2 ^ w -> bvashr_x w v 0 = v.
+Proof.
+  intros Hw Hv. unfold bvashr_x. destruct (w <=? 0) eqn:E; [apply Z.leb_le in E; lia|].
+  unfold bvashr. change (2 ^ 0) with 1. rewrite Z.div_1_r. apply wrap_sval; auto.
+Qed.
+
+Lemma shl_shl w v i s : 0 <= w -> 0 <= i -> 0 <= s ->
+  bvshl_x w (bvshl_x w v i) s = bvshl_x w v (i + s).
+Proof.
+  intros Hw Hi Hs. rewrite !bvshl_x_eq by lia. unfold bvshl, wrap.
+  rewrite Zmult_mod_idemp_l. rewrite Z.pow_add_r by lia. f_equal. ring.
+Qed.
+Lemma shl_x_sat w v b : w <= b -> bvshl_x w v b = 0.
+Proof. intros H. unfold bvshl_x. destruct (w <=? b) eqn:E; [reflexivity|apply Z.leb_gt in E; lia]. Qed.
